@@ -118,6 +118,8 @@ structure Ext where
   narrow : UInt64 → UInt32
   /-- `f64 as i64` (saturating, NaN ↦ 0) -/
   f2i : UInt64 → Int64
+  /-- `f >= -2^63 && f < 2^63` (false for NaN): the guard of `number_to_i64` -/
+  f2iOk : UInt64 → Bool
   /-- `i64 as f64` -/
   i2f : Int64 → UInt64
   /-- `i64 as f32` -/
@@ -549,22 +551,20 @@ end
 
 /-! ### `fromKoto` — deserializer.rs -/
 
-def clamp (lo hi n : Int) : Int := if n < lo then lo else if hi < n then hi else n
+/-- `number_to_i64`: `I64(i) → Some(i)`; `F64(f) → Some(f as i64)` (truncated) if `-2^63 ≤ f < 2^63`,
+otherwise (too large, NaN) `None` -/
+def numI64 (X : Ext) : Num → Option Int
+  | .i a => some a.toInt
+  | .f b => if X.f2iOk b then some (X.f2i b).toInt else none
 
-/-- the number as the `i64` the deserializer works with: `I64(i) → i`, `F64(f) → f as i64` -/
-def numI64 (X : Ext) : Num → Int
-  | .i a => a.toInt
-  | .f b => (X.f2i b).toInt
-
-/-- `deserialize_i8 … deserialize_u128` followed by the primitive's visitor -/
+/-- `deserialize_i8 … deserialize_u128` followed by the primitive's visitor.
+Narrow kinds and `i64`: `number_to_i64(n).and_then(|i| T::try_from(i).ok())`, else `OutOfRangeNumber`.
+`u64`/`i128`/`u128`: `number_to_i64(n)` then `visit_i64(i)`, where the primitive's visitor rejects a
+negative `i` for the unsigned types. Both are "the i64 lies in the type's range". -/
 def fromInt (X : Ext) (k : IntK) (n : Num) : Option RVal :=
-  if k.wide then
-    -- `i64::try_from(n)` is the infallible `From` (saturating for floats), then `visit_i64`
-    let i := numI64 X n
-    if k.lo ≤ i then some (.int i) else none
-  else
-    -- `<T>::from(n)`: saturating cast, no error
-    some (.int (clamp k.lo k.hi (numI64 X n)))
+  match numI64 X n with
+  | none => none
+  | some i => if k.lo ≤ i ∧ i ≤ k.hi then some (.int i) else none
 
 def isCont (b : Nat) : Bool := 0x80 ≤ b && b < 0xC0
 
